@@ -414,11 +414,14 @@ func vGenAdd(g *vgen, ids []string) *vop {
 	if g.chance(0.08) {
 		o.Spec = "nan" // harmless until a message carries "poison"
 	}
+	if o.Spec == "flip" && g.chance(0.15) {
+		o.Spec = "bigflip" // the same specification in a file of 1.3 MB (a long comment between its nodes)
+	}
 	switch g.intn(6) {
 	case 0:
 		o.Node = "start"
 	case 1:
-		if o.Spec == "flip" {
+		if o.Spec == "flip" || o.Spec == "bigflip" {
 			o.Node = "alt"
 		}
 	}
@@ -569,6 +572,9 @@ func vSeqCorpus() [][]*vop {
 		{add("m0", "rec"), down, &vop{Kind: "process", Msg: leaf("a", "m0")}, get, up, &vop{Kind: "process", Msg: leaf("b", "m0")}, get},
 		// a write that fails although the store is up: bindings that cannot be serialised
 		{&vop{Kind: "add", Id: "m0", Spec: "rec", Bad: true}, get, add("m0", "rec"), get},
+		// a specification file of 1.3 MB is read whole: the machine gets past the node that follows the long comment
+		{add("m0", "bigflip"), &vop{Kind: "process", Msg: leaf("a", "m0")}, &vop{Kind: "process", Msg: leaf("b", "m0")},
+			&vop{Kind: "process", Msg: leaf("c", "m0")}, get},
 		// the service tests' scenario: add, process, remove, process
 		{add("m0", "rec"), &vop{Kind: "process", Msg: leaf("a", "m0")}, &vop{Kind: "rem", Id: "m0"}, &vop{Kind: "process", Msg: leaf("b", "m0")}, get},
 		// exists; unknown specification; broadcast with one bad specification
